@@ -5,7 +5,7 @@ From Coquelicot Require Import Coquelicot.
 From Interval Require Import Tactic.
 Require Import PP.Expr PP.RealOps PP.PolyFacts PP.ExpTail PP.Gen.Kernels PP.Proofs.QuarticForm.
 From Flocq Require Import Core BinarySingleNaN.
-Require Import PP.FloatModel PP.FloatOps PP.FloatFacts PP.ErrorBound PP.SafeDec PP.Proofs.QuarticFloat.
+Require Import PP.FloatModel PP.FloatOps PP.FloatFacts PP.ErrorBound PP.SafeDec PP.Proofs.QuarticFloat PP.Proofs.QuarticClosedFloat.
 Import ListNotations.
 Local Open Scope R_scope.
 
@@ -61,8 +61,8 @@ Qed.
    operation of the series term under/overflows (`safe`, decidable: lib/SafeDec.v), the value returned by the regenerated
    IntOfLogPoly4::evaluate differs from the exact form  k + v*sum c_j x^^j + u*v*(e^x^ - sum_{j<5} x^^j/j!)  AT x^ by at most
    64 * 2^-53 times the sum of the magnitudes of the terms, plus the truncation 1e-14*|u|*|v| of the 16-term series.
-   (What is NOT proved: the step from x^ to -ln v, i.e. the accuracy of the platform's ln; and the closed-form branch, which
-   calls exp.  Those stay with the 1400-bit oracle.) *)
+   (What is NOT proved: the step from x^ to -ln v, i.e. the accuracy of the platform's ln - that stays with the 1400-bit
+   oracle.  The closed-form branch, which calls exp, has its own theorem below, relative to the COMPUTED exponential.) *)
 Definition quartic_at (k c1 c2 c3 c4 u v x : R) : R :=
   k + v * (c1 * x + c2 * x ^ 2 + c3 * x ^ 3 + c4 * x ^ 4) + u * v * (exp x - T4 x).
 
@@ -108,4 +108,48 @@ Example C10_series_hypotheses_hold :
   let env := [of_bits 4602678819172646912; of_bits 4609434218613702656; of_bits 13835058055282163712; of_bits 4598175219545276416;
               of_bits 4613937818241073152; of_bits 13842939354630062080; of_bits 4608308318706860032; xh] in
   flt (of_bits 13833752011390226268) xh && flt xh (of_bits 4610425010531724165) = true /\ safe env e_series.
+Proof. cbv zeta. split; [vm_compute; reflexivity|apply safe1_sound; vm_compute; reflexivity]. Qed.
+
+(* ---- binary64, closed-form branch (partial towards C10_accuracy: relative to the COMPUTED logarithm, reciprocal and exponential) ----
+   For ANY libm, all finite (k, c1..c4, u) and v: let x^ = -(ln_f v), r^ = 1 (/) x^ (one correctly rounded division) and
+   E^ = exp_f (1 (/) r^) be the three numbers the implementation computes.  Whenever the implementation's own window test on x^
+   FAILS and no operation of the libm-free remainder under/overflows (`safe`), the value returned by the regenerated
+   IntOfLogPoly4::evaluate differs from the exact closed form AT (x^, r^, E^),
+       k + v*sum c_j x^^j + u*v*x^^5*((E^ - 1) r^^5 - r^^4 - r^^3/2 - r^^2/6 - r^^/24),
+   by at most 64 * 2^-53 times the sum of the magnitudes of its terms; and that closed form IS the property's form
+   k + v*sum c_j x^j + u*v*(e^x - sum_{j<5} x^j/j!) when r = 1/x and E = e^x exactly (C10_closed_form_exact).
+   (What is NOT proved: |r^ - 1/x^|, the accuracy of the platform's exp and ln, and the amplification of those three errors by the
+   cancellation in (E - 1) r^5 - ... for |x| just outside the window: 1400-bit oracle.) *)
+Theorem C10_closed_accuracy_float : forall (ln_f exp_f : F -> F) (k c1 c2 c3 c4 u v : F),
+  let xh := fneg (ln_f v) in
+  let rh := fdiv (of_bits 4607182418800017408) xh in
+  let Eh := exp_f (fdiv (of_bits 4607182418800017408) rh) in
+  let env := [k; c1; c2; c3; c4; u; v; xh; rh; Eh] in
+  flt (of_bits 13833752011390226268) xh && flt xh (of_bits 4610425010531724165) = false ->
+  safe env e_closed ->
+  Rabs (B2R (eval (FOpsG ln_f exp_f) [k; c1; c2; c3; c4; u; v] e_Q4)
+        - closed_form (B2R k) (B2R c1) (B2R c2) (B2R c3) (B2R c4) (B2R u) (B2R v) (B2R xh) (B2R rh) (B2R Eh))
+  <= 4 * INR 16 * FloatFacts.u * closed_mag (B2R k) (B2R c1) (B2R c2) (B2R c3) (B2R c4) (B2R u) (B2R v) (B2R xh) (B2R rh) (B2R Eh).
+Proof.
+  intros ln_f exp_f k c1 c2 c3 c4 u v xh rh Eh env Hc Hs.
+  destruct (closed_branch_float ln_f exp_f k c1 c2 c3 c4 u v Hc Hs) as [E B]. fold xh rh Eh env in E, B. rewrite E. exact B.
+Qed.
+
+Theorem C10_closed_form_exact : forall k c1 c2 c3 c4 u v x : R, x <> 0 ->
+  closed_form k c1 c2 c3 c4 u v x (/ x) (exp x) = quartic_at k c1 c2 c3 c4 u v x.
+Proof.
+  intros k c1 c2 c3 c4 u v x Hx. unfold closed_form, quartic_at.
+  replace (u * v * x ^ 5 * closed_tail (/ x) (exp x)) with (u * v * (x ^ 5 * closed_tail (/ x) (exp x))) by ring.
+  rewrite closed_tail_exact by exact Hx. reflexivity.
+Qed.
+
+(* non-vacuity: k=0.5, c=(1.5,-2,0.25,3), u=-7, v=7 with ln_f 7 := 1.9459101490553132 and exp_f (-1.9459101490553132) :=
+   0.14285714285714288 (the values glibc returns): the window test fails (x^ < -1.71) and `safe` holds *)
+Example C10_closed_hypotheses_hold :
+  let xh := fneg (of_bits 4611442419394828887) in
+  let rh := fdiv (of_bits 4607182418800017408) xh in
+  let env := [of_bits 4602678819172646912; of_bits 4609434218613702656; of_bits 13835058055282163712; of_bits 4598175219545276416;
+              of_bits 4613937818241073152; of_bits 13842939354630062080; of_bits 4619567317775286272; xh; rh;
+              of_bits 4594314991293244563] in
+  flt (of_bits 13833752011390226268) xh && flt xh (of_bits 4610425010531724165) = false /\ safe env e_closed.
 Proof. cbv zeta. split; [vm_compute; reflexivity|apply safe1_sound; vm_compute; reflexivity]. Qed.
